@@ -627,3 +627,15 @@ pub fn t058() -> (Vec<(usize, usize)>, usize) {
     let total = qs.values().sum();
     (out, total)
 }
+fn bump(counter: &mut u32, by: u32) -> u32 {
+    *counter += by;
+    *counter
+}
+pub fn t059() -> (u32, u32, u32, f64) {
+    let mut fresh: u32 = 3;
+    let a = bump(&mut fresh, 2);
+    let b = bump(&mut fresh, 1) + fresh;
+    let n: i32 = 7;
+    let x: f64 = n.into();
+    (a, b, fresh, x / 2.0)
+}
